@@ -250,7 +250,7 @@ def c14_driver(a, col):
 # =========================================================================== C17 fault injection
 
 FAULTS = ["kraus-not-tp", "kraus-wrong-size", "povm-wrong-size", "custom-op-wrong-size", "wrong-kind", "outside-container",
-          "annihilate-vacuum", "shrink-occupied", "destroyed", "missing-parameter", "duplicate-operands"]
+          "annihilate-vacuum", "shrink-occupied", "destroyed", "missing-parameter", "duplicate-operands", "annihilate-state"]
 
 
 def dead_request(gen, v, rng, t):
@@ -504,6 +504,34 @@ def make_fault(gen, v, rng, kind=None):
         st.update(via)
         st["fault"] = kind
         return st
+    if kind == "annihilate-state":
+        # a custom operator of a renormalising family whose kernel contains the whole support of the target's
+        # reduced state: the result has trace zero and cannot be renormalised (the general form of "annihilating the vacuum")
+        cands = [n for n in lv if w.kind(n) in ("P", "X") and v["dims"].get(n)]
+        rng.shuffle(cands)
+        for t in cands[:3]:
+            try:
+                r, _ = denote(sn, [t])
+            except Malformed:
+                continue
+            ev, U = np.linalg.eigh((r + r.conj().T) / 2)
+            ker = ev < 1e-15
+            if not ker.any() or ker.all() or np.any((ev >= 1e-15) & (ev < 1e-6)):
+                continue   # full rank, or no clean gap between kernel and support
+            Uk = U[:, ker]
+            d0 = r.shape[0]
+            M = ref.haar_unitary(rng, d0) @ (Uk @ Uk.conj().T) * float(rng.uniform(0.5, 1.5))
+            if np.real(np.trace(M @ r @ M.conj().T)) > 1e-28:
+                continue
+            fam = "pol" if w.kind(t) == "P" else "custom"
+            via = gen.pick_via(v, [t])
+            if via is None or (fam == "custom" and via["via"] == "env"):
+                continue
+            st = {"k": "apply", "op": {"fam": fam, "type": "Custom", "operator": c2j(M)}, "targets": [t]}
+            st.update(via)
+            st["fault"] = kind
+            return st
+        return None
     if kind == "shrink-occupied":
         focks = [n for n in lv if w.kind(n) == "F"]
         cands = []
@@ -542,6 +570,23 @@ def make_fault(gen, v, rng, kind=None):
         st.update(via)
         st["fault"] = kind
         return st
+    if kind == "duplicate-operands" and rng.random() < 0.3:
+        # through the envelope: the same member twice, or more operands than the envelope has parts
+        envs = [e for e in w.envs if v["env_ok"][e] and e + ".f" in lv and e + ".p" in lv
+                and sn.subs[e + ".f"]["dims"] and sn.subs[e + ".f"]["dims"] > 0]
+        if envs:
+            e = pick(envs)
+            f, pz = e + ".f", e + ".p"
+            df = v["dims"][f]
+            tg = pick([[f, f], [pz, pz], [f, pz, f], [pz, f, pz]])
+            d = int(np.prod([v["dims"][t] for t in tg]))
+            if d <= 64:
+                if rng.random() < 0.6:
+                    Ks = ref.kraus_from_dilation(rng, d, 2)
+                    return {"k": "kraus", "ops": [c2j(K) for K in Ks], "targets": tg, "via": "env", "env": e, "fault": kind}
+                Ms = ref.povm_set(rng, d, 2)
+                return {"k": "povm", "ops": [c2j(M) for M in Ms], "targets": tg, "via": "env", "env": e, "fault": kind,
+                        "destr": bool(rng.random() < 0.5)}
     if kind == "duplicate-operands":
         groups = {}
         for n in lv:
